@@ -85,7 +85,7 @@ const nanCode = 2147483647
 
 var (
 	intAnchors   = []int64{math.MinInt64, -(1 << 53) - 1, -1, 0, 1, 1 << 31, (1 << 53) + 1, math.MaxInt64 - 1, math.MaxInt64}
-	floatAnchors = []float64{math.Inf(-1), -1e300, -1.5, 0, 5e-324, 0.1, 1e300, math.Inf(1)}
+	floatAnchors = []float64{math.Inf(-1), -1e300, -1.5, 0, 5e-324, 0.1, float64(float32(0.1)), 1e300, math.Inf(1)}
 
 	charMaps = [][]rune{
 		{0, 'X', '7', ' ', '"', '\\', '(', ')', ',', 'É', 'Y', '^', '$', ':'},
